@@ -167,6 +167,8 @@ def _sweeps():
         items.append(("outlabel", k))
     for k in range(21):
         items.append(("extlabel", k))
+    for k in range(21):
+        items.append(("outorder", k))
     for n in (1, 2, 3):
         for mask in range(2 ** (n * n)):
             items.append(("digraph", n, mask))
@@ -196,6 +198,15 @@ def _chain(order, ext_on=None, dup=False, missing=None, nohandler=None):
             "enforce": True, "runs": 2, "faults": ["scenario"], "topo": None}
 
 
+def _late_chain(order):
+    """chain + second feeder where the last inserted module (and every wire touching it) only arrives after a first run."""
+    late = order[-1]
+    c = _chain(list(order), dup=True)
+    idx = [i for i, a in enumerate(c["attempts"]) if late in (a[0], a[2])]
+    temp = {(a[2], a[3]): ["raw"] for i, a in enumerate(c["attempts"]) if i in idx and a[2] != late and late != "d"}
+    return M.build_history(c, [idx], late_mods=[late], temp_ext=temp)
+
+
 def _scenarios():
     sc = []
     for order in itertools.permutations("abc"):
@@ -209,6 +220,18 @@ def _scenarios():
         sc.append(_chain(list(order), nohandler="c"))
     for order in itertools.permutations("abcd"):
         sc.append(_chain(list(order), dup=True))
+    # histories on one executor: the diagram changes between two execute() calls
+    for order in itertools.permutations("abcd"):
+        sc.append(M.build_history(_chain(list(order), dup=True), [[2]], runs=[2]))          # second feeder arrives later
+    for order in itertools.permutations("abc"):
+        for idx, port in ((0, ("b", "i")), (1, ("c", "i"))):
+            sc.append(M.build_history(_chain(list(order)), [[idx]], temp_ext={port: ["raw"]}, runs=[2]))   # ext-fed, wired later
+            sc.append(M.build_history(_chain(list(order)), [[idx]], runs=[2]))                               # unfed, wired later
+            sc.append(M.build_history(_chain(list(order)), [[idx]], temp_ext={port: ["raw"]}, keep_temp=True))  # wired + still ext-fed
+        sc.append(M.build_history(_chain(list(order)), [[0], [1]], temp_ext={("b", "i"): ["raw"], ("c", "i"): ["raw"]}))
+        sc.append(M.build_history(_chain(list(order)), [[]], runs=[2]))
+    for order in itertools.permutations("abcd"):
+        sc.append(_late_chain(order))
     return sc
 
 
@@ -231,6 +254,13 @@ def plan(tier):
                 "error_expected:mislabelled:wrong-type": 200, "error_expected:mislabelled:lower-integrity": 100,
                 "error_expected:mislabelled:higher-integrity": 100,
                 "multi_pass_schedules": 500, "capability_unions_checked": 5000,
+                "later_phases": 3000, "later_phase_executions": 3000, "rewired_without_new_module": 2000,
+                "later_phase_new_wires": 2000, "later_phase_introduces:duplicate-source": 100,
+                "later_phase_introduces:cycle": 100, "later_phase_introduces:ext-on-wired-port": 50,
+                "later_phase_resolves:missing-source": 100,
+                "later_phase:report->error": 200, "later_phase:error->report": 200, "later_phase:report->report": 500,
+                "handlers_replaced_between_executions": 100,
+                "handler_returns_in_other_than_declared_order": 2000, "reordered_returns_across_differing_ports": 1000,
                 "loop_monitor_line_events": 100000,
                 "reach:PortType.can_flow_to": 441, "reach:PortType.require_flow_to": 1000,
                 "reach:WiringDiagram.connect": 1000, "reach:WiringDiagram.required_capabilities": 1000,
@@ -248,6 +278,8 @@ def run_case(ctx, n):
             return sweep_outlabel(ctx, item[1])
         if kind == "extlabel":
             return sweep_extlabel(ctx, item[1])
+        if kind == "outorder":
+            return sweep_outorder(ctx, item[1])
         if kind == "digraph":
             return sweep_digraph(ctx, item[1], item[2])
         return run_diagram(ctx, copy.deepcopy(SCENARIOS[item[1]]))
@@ -264,6 +296,10 @@ def run_case(ctx, n):
                 if M.inject(case, f, rng, t["DT"], t["LB"]):
                     case["faults"].append(f)
         M.add_decoys(case, rng, only_rejected=True)
+    if rng.random() < 0.3:
+        M.split_phases(case, rng, t["DT"], t["LB"])
+    if rng.random() < 0.6:
+        M.permute_handler_orders(case, rng)
     run_diagram(ctx, case)
 
 
@@ -327,6 +363,30 @@ def sweep_outlabel(ctx, k):
                 run_diagram(ctx, case)
 
 
+def sweep_outorder(ctx, k):
+    """Two output ports a:A, b:B (all 21x21 pairs); the handler lists them as (b, a). Raw / correctly labelled values must
+    come out under their own port; values carrying each other's label must be refused (when A != B)."""
+    t = T()
+    ptypes = [[d, l] for d in t["DT"] for l in t["LB"]]
+    A = ptypes[k % len(ptypes)]
+    for B in ptypes:
+        progs = [{"b": ["raw"], "a": ["raw"]}, {"b": ["tv"] + B, "a": ["tv"] + A},
+                 {"b": ["raw"], "a": ["tv"] + A}, {"b": ["tv"] + B, "a": ["raw"]}]
+        if A != B:
+            progs.append({"b": ["tv"] + A, "a": ["tv"] + B})
+        for prog in progs:
+            for flip in (False, True):
+                case = {"modules": [{"name": "s", "inputs": {}, "outputs": {"a": A, "b": B}, "caps": []},
+                                    {"name": "da", "inputs": {"i": A}, "outputs": {}, "caps": []},
+                                    {"name": "db", "inputs": {"i": B}, "outputs": {}, "caps": []}],
+                        "attempts": [["s", "a", "da", "i"], ["s", "b", "db", "i"]],
+                        "handlers": {"s": {"ports": dict(prog), "ret_none": False}},
+                        "ext": {}, "enforce": not flip, "runs": 1, "faults": ["outorder-sweep"], "topo": None}
+                if flip:
+                    case["modules"].reverse()
+                run_diagram(ctx, case)
+
+
 def sweep_extlabel(ctx, k):
     t = T()
     ptypes = [[d, l] for d in t["DT"] for l in t["LB"]]
@@ -347,88 +407,61 @@ def sweep_digraph(ctx, n, mask):
     lb = t["LB"][mask % len(t["LB"])]
     for order in itertools.permutations(range(n)):
         run_diagram(ctx, M.digraph_case(n, mask, list(order), dt, lb))
+        if mask:
+            # the same digraph grown wire by wire under one executor that runs after every connect()
+            # (ports not wired yet are fed externally, so every prefix graph is judged on its own)
+            run_diagram(ctx, M.incremental(M.digraph_case(n, mask, list(order), dt, lb)))
 
 
 # ---------------------------------------------------------------------------- one diagram under the monitors
 def brief(case):
-    return {k: case[k] for k in ("modules", "attempts", "handlers", "ext", "enforce", "runs", "faults")}
+    d = {k: case[k] for k in ("modules", "attempts", "handlers", "ext", "enforce", "runs", "faults")}
+    if case.get("phases"):
+        d["phases"] = case["phases"]
+    return d
+
+
+class PhaseCtx:
+    """ctx proxy: violations seen after the diagram/executor was changed between executions get their own keys."""
+
+    def __init__(self, ctx):
+        self.ctx = ctx
+        self.phase = 0
+
+    def count(self, name, k=1):
+        self.ctx.count(name, k)
+
+    def violation(self, mechanism, what, witness):
+        if self.phase:
+            mechanism += "+later-phase"
+            witness = dict(witness, phase=self.phase)
+        self.ctx.violation(mechanism, what, witness)
 
 
 def run_diagram(ctx, case):
+    """Phase 0 builds the diagram and executes it; every later phase (case["phases"]) adds modules / attempted wires /
+    handler registrations to the SAME diagram and executes again on the SAME executor."""
     t = T()
     W, RT, TY = t["wagent"], t["rt"], t["types"]
     desc = brief(case)
-    mods = M.mod_index(case)
-    order = [m["name"] for m in case["modules"]]
-
+    raw_ctx = ctx
+    ctx = PhaseCtx(raw_ctx)
+    phases = M.phase_list(case)
+    view = {"modules": [], "attempts": [], "handlers": {}, "ext": {}, "enforce": True, "runs": 0, "faults": case["faults"]}
+    cur = {"an": None, "mods": {}, "order": []}
     diagram = W.WiringDiagram()
-    for m in case["modules"]:
-        diagram.add_module(W.ModuleSpec(name=m["name"], inputs={p: ptype(s) for p, s in m["inputs"].items()},
-                                        outputs={p: ptype(s) for p, s in m["outputs"].items()},
-                                        capabilities={TY.Capability(c) for c in m["caps"]}))
-    # ---- capability aggregation
-    exp_caps = set()
-    for m in case["modules"]:
-        exp_caps |= {TY.Capability(c) for c in m["caps"]}
-    got_caps = diagram.required_capabilities()
-    ctx.count("capability_unions_checked")
-    if got_caps != exp_caps or not isinstance(got_caps, (set, frozenset)):
-        ctx.violation("capabilities-not-union", "required_capabilities() = %r, union over modules = %r" % (
-            sorted(c.value for c in got_caps) if isinstance(got_caps, (set, frozenset)) else got_caps,
-            sorted(c.value for c in exp_caps)), desc)
-
-    # ---- acceptance clause, one attempted connection at a time
+    ex = None
     accepted = []
-    diverged = False
-    for a in case["attempts"]:
-        exp, why = M.attempt_expectation(case, a)
-        before = list(diagram.wires)
-        ctx.count("connect_checked")
-        try:
-            diagram.connect(*a)
-            got = True
-        except W.WiringError:
-            got = False
-        except Exception:   # not a WiringError: still a refusal (the statement only says accepted / not accepted)
-            got = False
-            ctx.count("connect_rejected_with_other_exception")
-        after = list(diagram.wires)
-        if got and not exp:
-            ctx.violation("connect-accepts-" + why, "connect%r accepted (%s): %s -> %s" % (
-                tuple(a), why, mods.get(a[0], {}).get("outputs", {}).get(a[1]), mods.get(a[2], {}).get("inputs", {}).get(a[3])),
-                dict(desc, attempt=a))
-            diverged = True
-        elif exp and not got:
-            ctx.violation("connect-rejects-legal-flow", "connect%r rejected a legal flow %s -> %s" % (
-                tuple(a), mods[a[0]]["outputs"][a[1]], mods[a[2]]["inputs"][a[3]]), dict(desc, attempt=a))
-            diverged = True
-        if got:
-            ctx.count("connect_accepted")
-            if after != before + [W.Wire(*a)]:
-                ctx.violation("accepted-wire-not-recorded", "wire list after accepted connect%r is not old+[wire]" % (tuple(a),),
-                              dict(desc, attempt=a, wires=[repr(w) for w in after]))
-                diverged = True
-            accepted.append(tuple(a))
-        else:
-            ctx.count("connect_rejected")
-            ctx.count("connect_rejected:" + why)
-            if after != before:
-                ctx.violation("rejected-wire-retained", "connect%r was rejected (%s) but the wire list changed" % (tuple(a), why),
-                              dict(desc, attempt=a, wires=[repr(w) for w in after]))
-                diverged = True
-    if diverged:
-        return   # the real diagram no longer matches the model's; everything observable was reported
-
-    an = M.analyze(case, accepted)
-    ex = RT.DiagramExecutor(diagram)
     state = {"run": 0, "calls": [], "seen": {}, "poison": set(), "rejected_invoked": None}
+    outcomes = []
+    problem_hist = []
 
     # ---- value bookkeeping
     def token(mname, port, run):
         return "%s.%s@%d" % (mname, port, run)
 
     def ext_token(mname, port):
-        return "ext:%s.%s" % (mname, port)
+        return "ext:%s.%s@%d" % (mname, port, state["run"])
 
     def build(spec, tok):
         if spec[0] == "raw":
@@ -439,6 +472,7 @@ def run_diagram(ctx, case):
 
     def check_inputs(mname, inputs, where):
         """I2 + I4 on the inputs a module was given (at the stub, and again in the report)."""
+        mods, an = cur["mods"], cur["an"]
         decl = mods[mname]["inputs"]
         try:
             keys = set(inputs.keys())
@@ -475,7 +509,7 @@ def run_diagram(ctx, case):
             s = srcs[0]
             if s[0] == "wire":
                 _, sm, sp = s
-                prog = case["handlers"].get(sm)
+                prog = view["handlers"].get(sm)
                 if prog is None or prog.get("ret_none") or sp not in prog["ports"] or (sm, sp) in an["mislabelled"]:
                     continue
                 ctx.count("wire_deliveries_with_provenance")
@@ -495,17 +529,18 @@ def run_diagram(ctx, case):
                     ctx.violation("delivered-label-raised", "%s: external value for %s.%s was labelled %d, delivered as %d" % (
                         where, mname, p, spec[2], int(v.integrity)), dict(desc, module=mname, port=p))
 
-    def make_stub(mname):
-        prog = case["handlers"][mname]
-
+    def make_stub(mname, prog):
         def stub(inputs):
+            mods, an = cur["mods"], cur["an"]
             ctx.count("handler_invocations")
             run = state["run"]
+            if view["handlers"].get(mname) is not prog:
+                ctx.count("replaced_handler_invoked(recorded-not-judged)")   # which registration wins is outside the statement
             if mname in state["seen"]:
                 ctx.violation("handler-invoked-twice", "handler of %s invoked a second time in one execute()" % mname,
                               dict(desc, module=mname, calls=list(state["calls"])))
             # I3: every feeding module already ran
-            late = sorted(f for f in an["feeders"][mname] if f in case["handlers"] and f not in state["seen"] and f != mname)
+            late = sorted(f for f in an["feeders"][mname] if f in view["handlers"] and f not in state["seen"] and f != mname)
             if mname in an["feeders"][mname]:
                 late.append(mname)
             if late:
@@ -531,55 +566,155 @@ def run_diagram(ctx, case):
                 if (mname, p) in an["mislabelled"]:
                     state["poison"].add(tok)
                     state["rejected_invoked"] = "%s.%s (%s)" % (mname, p, an["mislabelled"][(mname, p)])
+            decl = mods[mname]["outputs"]
+            if len(out) >= 2 and set(out) == set(decl) and list(out) != list(decl):
+                ctx.count("handler_returns_in_other_than_declared_order")
+                moved = [p for p, q in zip(out, decl) if p != q]
+                if len({tuple(decl[p]) for p in moved}) > 1:
+                    ctx.count("reordered_returns_across_differing_ports")
             return out
         return stub
 
-    for mname in case["handlers"]:
-        if mname in mods:
-            ex.register_module(mname, make_stub(mname))
+    for k, ph in enumerate(phases):
+        ctx.phase = k
+        # ---- new modules
+        for m in ph["modules"]:
+            diagram.add_module(W.ModuleSpec(name=m["name"], inputs={p: ptype(s) for p, s in m["inputs"].items()},
+                                            outputs={p: ptype(s) for p, s in m["outputs"].items()},
+                                            capabilities={TY.Capability(c) for c in m["caps"]}))
+            view["modules"].append(m)
+        view["ext"], view["enforce"], view["runs"] = ph["ext"], ph["enforce"], ph["runs"]
+        mods = cur["mods"] = M.mod_index(view)
+        order = cur["order"] = [m["name"] for m in view["modules"]]
+        # ---- capability aggregation
+        if ph["modules"] or k == 0:
+            exp_caps = set()
+            for m in view["modules"]:
+                exp_caps |= {TY.Capability(c) for c in m["caps"]}
+            got_caps = diagram.required_capabilities()
+            ctx.count("capability_unions_checked")
+            if got_caps != exp_caps or not isinstance(got_caps, (set, frozenset)):
+                ctx.violation("capabilities-not-union", "required_capabilities() = %r, union over modules = %r" % (
+                    sorted(c.value for c in got_caps) if isinstance(got_caps, (set, frozenset)) else got_caps,
+                    sorted(c.value for c in exp_caps)), desc)
 
-    n = len(order)
-    nports = sum(len(m["inputs"]) + len(m["outputs"]) for m in case["modules"])
-    next_ = sum(len(v) for v in case["ext"].values())
-    bound = 4 * (n * (n + 1) + len(accepted) + nports + next_) + 20
-
-    outcomes = []
-    for run in range(case["runs"]):
-        state.update(run=run, calls=[], seen={}, poison=set(), rejected_invoked=None)
-        ext_real = {mn: {p: build(spec, ext_token(mn, p)) for p, spec in ports.items()} for mn, ports in case["ext"].items()}
-        kwargs = {}
-        if not case["enforce"]:
-            kwargs["enforce_static_checks"] = False
-        report = None
-        err = None
-        ctx.count("executions")
-        if run:
-            ctx.count("second_runs")
-        MON.arm(bound)
-        try:
-            if ext_real or len(accepted) % 2:
-                report = ex.execute(ext_real, **kwargs)
+        # ---- acceptance clause, one attempted connection at a time
+        diverged = False
+        new_wires = 0
+        for a in ph["attempts"]:
+            exp, why = M.attempt_expectation(view, a)
+            before = list(diagram.wires)
+            ctx.count("connect_checked")
+            try:
+                diagram.connect(*a)
+                got = True
+            except W.WiringError:
+                got = False
+            except Exception:   # not a WiringError: still a refusal (the statement only says accepted / not accepted)
+                got = False
+                ctx.count("connect_rejected_with_other_exception")
+            after = list(diagram.wires)
+            if got and not exp:
+                ctx.violation("connect-accepts-" + why, "connect%r accepted (%s): %s -> %s" % (
+                    tuple(a), why, mods.get(a[0], {}).get("outputs", {}).get(a[1]), mods.get(a[2], {}).get("inputs", {}).get(a[3])),
+                    dict(desc, attempt=a))
+                diverged = True
+            elif exp and not got:
+                ctx.violation("connect-rejects-legal-flow", "connect%r rejected a legal flow %s -> %s" % (
+                    tuple(a), mods[a[0]]["outputs"][a[1]], mods[a[2]]["inputs"][a[3]]), dict(desc, attempt=a))
+                diverged = True
+            if got:
+                ctx.count("connect_accepted")
+                if after != before + [W.Wire(*a)]:
+                    ctx.violation("accepted-wire-not-recorded", "wire list after accepted connect%r is not old+[wire]" % (tuple(a),),
+                                  dict(desc, attempt=a, wires=[repr(w) for w in after]))
+                    diverged = True
+                accepted.append(tuple(a))
+                new_wires += 1
             else:
-                report = ex.execute(**kwargs)
-            outcome = M.REPORT
-        except W.WiringError as e:
-            outcome, err = M.ERROR, e
-        except LoopBudgetExceeded as e:
-            outcome, err = "loop", e
-        except Exception as e:
-            outcome, err = "other", e
-        finally:
-            MON.disarm()
-        outcomes.append(outcome)
-        judge(ctx, case, desc, an, state, outcome, report, err, check_inputs, token, run)
+                ctx.count("connect_rejected")
+                ctx.count("connect_rejected:" + why)
+                if after != before:
+                    ctx.violation("rejected-wire-retained", "connect%r was rejected (%s) but the wire list changed" % (tuple(a), why),
+                                  dict(desc, attempt=a, wires=[repr(w) for w in after]))
+                    diverged = True
+            view["attempts"].append(a)
+        if diverged:
+            return   # the real diagram no longer matches the model's; everything observable was reported
 
-    if n >= 2 and accepted:
+        if ex is None:
+            ex = RT.DiagramExecutor(diagram)
+        for mname, prog in ph["handlers"].items():
+            if k and mname in view["handlers"]:
+                ctx.count("handlers_replaced_between_executions")
+            view["handlers"][mname] = prog
+            if mname in mods:
+                ex.register_module(mname, make_stub(mname, prog))
+        prev = cur["an"]
+        an = cur["an"] = M.analyze(view, accepted)
+        problem_hist.append(tuple(sorted(set(an["problems"]))))
+        if k:
+            ctx.count("later_phases")
+            if new_wires and not ph["modules"]:
+                ctx.count("rewired_without_new_module")
+            if new_wires:
+                ctx.count("later_phase_new_wires", new_wires)
+            ctx.count("later_phase:%s->%s" % (prev["expect"], an["expect"]))
+            if "duplicate-source" in an["problems"] and "duplicate-source" not in prev["problems"]:
+                ctx.count("later_phase_introduces:duplicate-source")
+            if "cycle" in an["problems"] and "cycle" not in prev["problems"]:
+                ctx.count("later_phase_introduces:cycle")
+            if "ext-on-wired-port" in an["problems"] and "ext-on-wired-port" not in prev["problems"]:
+                ctx.count("later_phase_introduces:ext-on-wired-port")
+            if "missing-source" in prev["problems"] and "missing-source" not in an["problems"]:
+                ctx.count("later_phase_resolves:missing-source")
+
+        n = len(order)
+        nports = sum(len(m["inputs"]) + len(m["outputs"]) for m in view["modules"])
+        next_ = sum(len(v) for v in view["ext"].values())
+        bound = 4 * (n * (n + 1) + len(accepted) + nports + next_) + 20
+
+        for _ in range(ph["runs"]):
+            run = len(outcomes)
+            state.update(run=run, calls=[], seen={}, poison=set(), rejected_invoked=None)
+            ext_real = {mn: {p: build(spec, ext_token(mn, p)) for p, spec in ports.items()} for mn, ports in view["ext"].items()}
+            kwargs = {}
+            if not view["enforce"]:
+                kwargs["enforce_static_checks"] = False
+            report = None
+            err = None
+            ctx.count("executions")
+            if run:
+                ctx.count("second_runs")
+            if k:
+                ctx.count("later_phase_executions")
+            MON.arm(bound)
+            try:
+                if ext_real or len(accepted) % 2:
+                    report = ex.execute(ext_real, **kwargs)
+                else:
+                    report = ex.execute(**kwargs)
+                outcome = M.REPORT
+            except W.WiringError as e:
+                outcome, err = M.ERROR, e
+            except LoopBudgetExceeded as e:
+                outcome, err = "loop", e
+            except Exception as e:
+                outcome, err = "other", e
+            finally:
+                MON.disarm()
+            outcomes.append(outcome)
+            judge(ctx, view, desc, an, state, outcome, report, err, check_inputs, token, run)
+
+    mods, order, an = cur["mods"], cur["order"], cur["an"]
+    if len(order) >= 2 and accepted:
         degs = tuple((sum(1 for w in accepted if w[2] == nm), sum(1 for w in accepted if w[0] == nm)) for nm in order)
         labels = tuple(sorted((mods[w[0]]["outputs"][w[1]][1], mods[w[2]]["inputs"][w[3]][1]) for w in accepted))
-        ctx.nontrivial((degs, labels, tuple(sorted(set(an["problems"]))), tuple(sorted(an["mislabelled"].values())),
-                        tuple(outcomes), case["enforce"]))
-    if "chaos" in case["faults"] or len(case["faults"]) == 1 and case["faults"][0] in M.FAULTS:
-        ctx.sample(dict(desc, outcome=outcomes), cap=3)
+        raw_ctx.nontrivial((degs, labels, tuple(problem_hist), tuple(sorted(an["mislabelled"].values())),
+                            tuple(outcomes), case["enforce"]))
+    f = [x for x in case["faults"] if x != "history"]
+    if "chaos" in f or len(f) == 1 and f[0] in M.FAULTS:
+        raw_ctx.sample(dict(desc, outcome=outcomes), cap=3)
 
 
 def judge(ctx, case, desc, an, state, outcome, report, err, check_inputs, token, run):
